@@ -23,6 +23,7 @@ type ProgOpts struct {
 	TryHeavy   bool // many nested try/catch/finally with every exit kind
 	CallHeavy  bool // many functions, closures, variadic/spread calls
 	FailOps    bool // operations that raise runtime errors (1/0 via variables, bad index, call of non-callable)
+	NoTopReturn bool // no `return` outside function literals (stream eval: fragments must not return early)
 }
 
 // DefaultProgOpts is a mostly-valid mix of everything the VM model supports.
@@ -125,7 +126,7 @@ func (g *progGen) stmt(sb *strings.Builder, sc *scope, depth int, ind string) {
 	if sc.inLoop {
 		choices = append(choices, "break", "continue")
 	}
-	if sc.inFunc || depth > 0 {
+	if sc.inFunc || (depth > 0 && !o.NoTopReturn) {
 		choices = append(choices, "return")
 	}
 	if o.Containers && len(sc.vars) > 0 {
